@@ -281,10 +281,30 @@ def check_C12(tier: str, v: Verdict):
             a = gen.rand_instances(rng, shape, rng.randint(1, 4))
             return (((a - 1) % 3) + 1) * (a != 0) * scale
         pred, ref = arr(), arr()
-        undefined = rng.random() < 0.12
+        undefined = rng.random() < 0.2
         if undefined:
-            pos = tuple(rng.randrange(s) for s in shape)
-            (pred if rng.random() < 0.5 else ref)[pos] = 4 * scale + 1
+            which = pred if rng.random() < 0.5 else ref
+            if rng.random() < 0.5:
+                pos = tuple(rng.randrange(s) for s in shape)
+                which[pos] = 4 * scale + 1                 # a label above all group labels
+            else:
+                # no background voxel at all, and the SMALLEST label of the array is in no group
+                which[which == 0] = rng.choice([1, 2, 3]) * scale
+                pos = tuple(rng.randrange(s) for s in shape)
+                which[pos] = (scale // 2) if scale > 1 else 0
+                if scale == 1:
+                    # shift the group labels up by one so that label 1 is undefined
+                    pred, ref = pred + (pred > 0), ref + (ref > 0)
+                    which = pred if which is pred else ref
+                    gdefs = {k: [x + 1 for x in vv] if k != "unused" else vv for k, vv in gdefs.items()}
+                    for name in list(groups):
+                        if name == "unused":
+                            continue
+                        groups[name] = (LabelMergeGroup(gdefs[name]) if kinds[name] == "merge"
+                                        else LabelGroup(gdefs[name], single_instance=(kinds[name] == "single")))
+                    gall = sorted({x for labs in gdefs.values() for x in labs})
+                    which[which == 0] = 2
+                    which[pos] = 1
         cfg = rand_cfg(rng, inputs=("UNM", "UNM", "MAT", "SEM"), matchers=("naive", "naive", "merge"))
         dt = np.uint8
         with drive.quiet():
